@@ -1,6 +1,102 @@
+import DdsModel.Uncompressed
 import DdsModel.Drv.Util
-namespace Dds.Drv
+/-
+C04 driver.  Case line:
 
-def runC04 (_line : String) : String := "not-modelled"
+  D <format> <channels> <prec> <w> <h> <spec> [<spec2>]
+
+channels ∈ gray|alpha|rgb|rgba, prec ∈ 0|1|2 (U8|U16|F32).  `<spec>` generates the encoded units
+(pixels / blocks / plane-1 elements; `<spec2>` the plane-2 elements of bi-planar formats), unit `i`:
+
+  S:<start>                      (start + i) mod 2^bits
+  W:<off>:<width>:<base>:<start> base (hex) with bits [off, off+width) replaced by (start+i) mod 2^width
+  R:<seed>                       splitmix64 words
+  H:<hex>,<hex>,...              the listed values, cyclically
+
+Result: `ok` followed by every channel value of every pixel (row-major) in hex; F32 values are bit
+patterns, every NaN is printed as `nan`.
+-/
+namespace Dds.Drv
+open Dds.Unc
+
+def M64 : Nat := 18446744073709551616
+
+def splitmix (seed i : Nat) : Nat :=
+  let z := (seed + (i + 1) * 0x9E3779B97F4A7C15) % M64
+  let z := ((z ^^^ (z >>> 30)) * 0xBF58476D1CE4E5B9) % M64
+  let z := ((z ^^^ (z >>> 27)) * 0x94D049BB133111EB) % M64
+  z ^^^ (z >>> 31)
+
+def hexDigit? (c : Char) : Option Nat :=
+  if '0' ≤ c ∧ c ≤ '9' then some (c.toNat - '0'.toNat)
+  else if 'a' ≤ c ∧ c ≤ 'f' then some (c.toNat - 'a'.toNat + 10)
+  else if 'A' ≤ c ∧ c ≤ 'F' then some (c.toNat - 'A'.toNat + 10)
+  else none
+
+def hex? (s : String) : Option Nat :=
+  if s.isEmpty then none else
+  s.foldl (fun acc c => match acc, hexDigit? c with
+    | some a, some d => some (a * 16 + d)
+    | _, _ => none) (some 0)
+
+def toHex (n : Nat) : String := String.ofList (Nat.toDigits 16 n)
+
+/-- unit generator of a spec, for units of `bits` bits -/
+def parseSpec (spec : String) (bits : Nat) : Option (Nat → Nat) :=
+  match spec.splitOn ":" with
+  | ["S", a] => do
+    let start ← nat? a
+    some fun i => (start + i) % 2 ^ bits
+  | ["W", o, w, b, a] => do
+    let off ← nat? o
+    let width ← nat? w
+    let base ← hex? b
+    let start ← nat? a
+    let mask := (2 ^ width - 1) <<< off
+    let base := base % 2 ^ bits
+    let cleared := base - (base &&& mask)
+    some fun i => (cleared + (((start + i) % 2 ^ width) <<< off)) % 2 ^ bits
+  | ["R", sd] => do
+    let seed ← nat? sd
+    some fun i => (splitmix seed (2 * i) + (splitmix seed (2 * i + 1)) <<< 64) % 2 ^ bits
+  | ["H", l] => do
+    let vals ← (l.splitOn ",").mapM hex?
+    let arr := vals.toArray
+    if arr.size == 0 then none else
+    some fun i => arr[i % arr.size]! % 2 ^ bits
+  | _ => none
+
+def parseChannels : String → Option Channels
+  | "gray" => some .gray | "alpha" => some .alpha | "rgb" => some .rgb | "rgba" => some .rgba
+  | _ => none
+
+def fmtVal (prec v : Nat) : String :=
+  if prec == 2 && F32.isNaN v then "nan" else toHex v
+
+def runC04 (line : String) : String :=
+  match toks line with
+  | "D" :: name :: ch :: prec :: w :: h :: specs =>
+    match findFmt name, parseChannels ch, nat? prec, nat? w, nat? h with
+    | some fm, some chans, some prec, some w, some h =>
+      if prec > 2 ∨ w == 0 ∨ h == 0 ∨ w * h > 1048576 then "bad-case" else
+      let surf : Option Surface :=
+        match fm.planar, specs with
+        | none, [s1] => do
+          let u ← parseSpec s1 (8 * fm.unitBytes)
+          some { w, h, unit := u }
+        | some (p1, p2), [s1, s2] => do
+          let u1 ← parseSpec s1 (8 * p1)
+          let u2 ← parseSpec s2 (8 * p2)
+          some { w, h, unit := u1, unit2 := u2 }
+        | _, _ => none
+      match surf with
+      | none => "bad-case"
+      | some s =>
+        let px := decodeSurface fm prec s
+        px.foldl (fun acc p =>
+          (convertChannels fm.native chans prec p).foldl (fun acc v => acc ++ " " ++ fmtVal prec v) acc)
+          "ok"
+    | _, _, _, _, _ => "bad-case"
+  | _ => "bad-case"
 
 end Dds.Drv
